@@ -18,7 +18,7 @@ import sys
 
 sys.path.insert(0, os.path.dirname(os.path.dirname(os.path.abspath(__file__))))
 
-from vlib import evocases, evorig  # noqa
+from vlib import sigs, evocases, evorig  # noqa
 
 
 def parse_preview(text):
@@ -110,6 +110,13 @@ def run_case(case, seed):
         return run_sql_file_case(case, seed)
     res = {}
     evocases.prepare_v0(case, seed, rows=case.get('rows', True))
+    if case.get('applied_first'):
+        # an earlier release of another app shipped an evolution (e.g. raw SQL); it is applied and recorded now
+        for app, muts in case['applied_first'].items():
+            evorig.set_evolutions(app, [{'label': 'e0', 'mutations': [sigs.real_mutation(m) for m in muts]}])
+        r = evorig.run_evolver()
+        if r[0] != 'ok':
+            raise RuntimeError('the earlier release cannot be applied: %r' % (r[1],))
     evocases.save_db('c14v0')
     evocases.install_v1(case)
     before = evorig.snapshot()
